@@ -25,9 +25,11 @@ def store(scn, entry, key, blob, algo):
     r = scn.open(key, opts) if entry.startswith("open_hash") is False else scn.open_hash(opts)
     if r.kind != "ok":
         return r
-    o = scn.hwrite_all(r.handle, data)
-    if o.kind != "ok":
-        return o
+    # streamed in two chunks at a symbolic cut (either may be the longer one, either may be empty)
+    for c in chunks_of(scn, blob, 2, prefix="cut_" + key):
+        o = scn.hwrite_all(r.handle, c)
+        if o.kind != "ok":
+            return o
     return scn.commit(r.handle)
 
 
